@@ -109,6 +109,14 @@ def ham_alphabet(n, seed, spin_dep, thorough, slots=2):
     for k in range(2 if thorough else 1):
         h0, h1, chol = al.small_ham(n, slots, seed + 5 * k, spin_dependent=spin_dep, scale=0.5)
         out.append(("dense%d" % k, h0, h1, chol))
+    # an INTEGER-typed one-body matrix (as -t * lattice.create_adjacency_matrix() + integer on-site terms gives) next to
+    # dense Cholesky vectors: the supplied Hamiltonian is the same whatever dtype the caller stores it in
+    K = np.zeros((n, n), dtype=np.int64)
+    for i in range(n - 1):
+        K[i, i + 1] = K[i + 1, i] = -1
+    K += np.diag(np.arange(n, dtype=np.int64) % 3)
+    _, _, chol = al.small_ham(n, slots, seed + 3, spin_dependent=False, scale=0.5)
+    out.append(("dense-inth1", 0.25, np.array([K, K]), chol))
     return out
 
 
@@ -132,7 +140,8 @@ def build_ham_data(n, h0, h1, chol, trial, wave_data, carry=True):
     ham = hamiltonian.hamiltonian(n)
     key = (trial, n, len(chol))
     hd = dict(_CARRY[key]) if (carry and key in _CARRY) else {}
-    hd.update({"h0": h0, "h1": jnp.asarray(np.asarray(h1, dtype=float)),
+    h1 = np.asarray(h1)
+    hd.update({"h0": h0, "h1": jnp.asarray(h1 if h1.dtype.kind == "i" else np.asarray(h1, dtype=float)),
                "chol": jnp.asarray(np.asarray(chol, dtype=float).reshape(len(chol), n * n)), "ene0": 0.0})
     out = ham.build_measurement_intermediates(hd, trial, wave_data)
     if carry:
